@@ -83,3 +83,23 @@ Section Loop.
          | o :: _ => one (match o with OSuccess true => 1 | _ => 0 end)%nat (report o)
          end.
 End Loop.
+
+(** ** What Shutdown does to an export that is asleep in the back-off (exporter.go / client.go of the six exporters;
+    exporter numbers as in Corr: 0 tracehttp, 1 metrichttp, 2 loghttp, 3 tracegrpc, 4 metricgrpc, 5 loggrpc).
+    - [Interrupts]: the stop channel (otlptracehttp) / stop context (otlptracegrpc, once Stop's own context is done)
+      cancels the export's context: the wait ends with the context error.
+    - [WaitsForExport]: otlpmetrichttp, otlpmetricgrpc, otlploggrpc take the exporter's client mutex, which the running
+      Export holds: Shutdown blocks (whatever its context says) until the export has ended on its own.
+    - [Detached]: otlploghttp swaps in a no-op client and returns; the running export is not told. *)
+Inductive shutdown_mode := Interrupts | WaitsForExport | Detached.
+
+Definition shutdown_mode_of (exporter : N) : shutdown_mode :=
+  match exporter with
+  | 0%N | 3%N => Interrupts
+  | 2%N => Detached
+  | _ => WaitsForExport
+  end.
+
+(** The context oracle of an export during which Shutdown is called in wait number [at]. *)
+Definition ctx_with_shutdown (mode : shutdown_mode) (at_wait : nat) (ctx_fires : nat -> Z -> bool) : nat -> Z -> bool :=
+  fun k d => ctx_fires k d || match mode with Interrupts => Nat.eqb k at_wait | _ => false end.
